@@ -22,7 +22,7 @@ STRUCT = ('mod ', 'tslot ', 'rem ', 'cb ', 'proc ', 'endproc', 'pipecap ')
 class CoreCheck(Check):
     driver = 'drv_core'
     driver_srcs = CORE_SRCS
-    driver_flags = ('-DLIBMODULE_LOG_CTX=CORE', '-Wl,--wrap=epoll_wait,--wrap=timerfd_settime,--wrap=close,--wrap=m_mem_new,--wrap=pipe,--wrap=pthread_join,--wrap=m_thpool_add')
+    driver_flags = ('-DLIBMODULE_LOG_CTX=CORE', '-Wl,--wrap=epoll_wait,--wrap=timerfd_settime,--wrap=close,--wrap=m_mem_new,--wrap=pipe,--wrap=pthread_join,--wrap=m_thpool_add,--wrap=dup')
     driver_libs = ('-lpthread', '-ldl')
     model = 'core'
     trusted = TRUSTED
@@ -258,7 +258,7 @@ def mon_userdata(case, ctr):
             m = int(l.split()[1])
             for e in evdescs(l):
                 if e[0] == '1':
-                    ups = reg.get((m, int(e[1])))
+                    ups = reg.get((m, int(e[1]) % 4294967296))      # a duplicated descriptor (M_SRC_DUP) is reported as 2^32 * ordinal + the user's descriptor
                     if ups is None: return [('module %d got an event of descriptor %s it never registered' % (m, e[1]), None)]
                     if e[6] not in ups: return [('descriptor event of module %d carries userdata %s, registered with %s' % (m, e[6], sorted(ups)), None)]
     return []
